@@ -378,7 +378,10 @@ class GriffeLoader:
         for name in to_remove:
             obj.del_member(name)
 
-        # Finally we process the collected objects.
+        # Finally we process the collected objects, in the order of the import statements:
+        # importing the same module twice with a wildcard leaves a single placeholder member
+        # that keeps its first position but the line number of the last statement.
+        expanded.sort(key=lambda item: item[1] or 0)
         for new_member, alias_lineno, alias_endlineno in expanded:
             overwrite = False
             already_present = new_member.name in obj.members
